@@ -7,6 +7,7 @@ import (
 	"fmt"
 	"go/token"
 	"go/types"
+	"strings"
 
 	"golang.org/x/tools/go/ssa"
 )
@@ -229,15 +230,50 @@ func (i *interpreter) indexVal(fr *frame, instr *ssa.Index, x, idx value) value 
 		return x[asInt64(idx)]
 	case *sstr:
 		return x.index(fr, idx, instr.Pos())
+	case symstr:
+		return i.strIndex(fr, x, idx, instr.Pos())
 	}
 	panic(engineError{fmt.Sprintf("unexpected x type in Index: %T", x)})
 }
 
 func (i *interpreter) lookupOp(fr *frame, instr *ssa.Lookup, x, idx value) value {
-	if s, ok := idx.(symv); ok {
-		// symbolic key: concretise over feasible values (small domains only)
-		_ = s
-		panic(engineError{"map lookup with symbolic key at " + fr.pos(instr.Pos())})
+	if _, ok := idx.(symv); ok {
+		panic(engineError{"map lookup with symbolic integer key at " + fr.pos(instr.Pos())})
+	}
+	if ks, ok := idx.(symstr); ok {
+		// symbolic string key: one alternative per key of the map, plus "none of them"
+		m, _ := x.(*omap)
+		var keys []value
+		if m != nil {
+			for _, e := range m.ents {
+				if !e.dead {
+					keys = append(keys, e.key)
+				}
+			}
+		}
+		var conds []string
+		var none []string
+		for _, k := range keys {
+			kk, isStr := k.(string)
+			if !isStr {
+				panic(engineError{"map with non-constant string keys looked up with a symbolic key"})
+			}
+			c := "(= " + ks.t + " " + smtString(kk) + ")"
+			conds = append(conds, c)
+			none = append(none, "(not "+c+")")
+		}
+		if len(none) == 0 {
+			conds = append(conds, "true")
+		} else if len(none) == 1 {
+			conds = append(conds, none[0])
+		} else {
+			conds = append(conds, "(and "+strings.Join(none, " ")+")")
+		}
+		c := i.pm.branch(conds, true)
+		if c < len(keys) {
+			return lookup(instr, x, keys[c])
+		}
+		return lookup(instr, (*omap)(nil), "")
 	}
 	return lookup(instr, x, idx)
 }
@@ -315,6 +351,8 @@ func (i *interpreter) sliceOp(fr *frame, instr *ssa.Slice, x, lo, hi, max value)
 	switch xs := x.(type) {
 	case *sstr:
 		return xs.slice(fr, lo, hi, instr.Pos())
+	case symstr:
+		return i.strSlice(fr, xs, lo, hi, instr.Pos())
 	case *symslice:
 		return i.sliceSym(fr, instr, xs, lo, hi, max)
 	case string:
@@ -486,7 +524,17 @@ func (i *interpreter) binopChecked(fr *frame, instr *ssa.BinOp, x, y value) valu
 			}
 		}
 	case token.EQL, token.NEQ:
+		if r, ok := intCompare(instr.Op, x, y); ok {
+			return r
+		}
 		return i.eqOp(fr, instr.Op, instr.X.Type(), x, y)
+	case token.LSS, token.LEQ, token.GTR, token.GEQ:
+		if r, ok := intCompare(instr.Op, x, y); ok {
+			return r
+		}
+	}
+	if isSymStr(x) || isSymStr(y) {
+		return strBinop(instr.Op, x, y)
 	}
 	if xs, ok := x.(*sstr); ok {
 		return xs.binop(fr, instr.Op, y)
